@@ -489,3 +489,55 @@ Fixpoint p_until_events (cap fuel e n : nat) (s : st) : list lab :=
   end.
 (* the recorder catches up completely: every message, then every queued buffer *)
 Definition catch_up (s : st) : list lab := repeat LR (length (chan s)) ++ repeat LW (length (chan s) + length (wl s)).
+
+(* ---- one case of the store-level tie (props/c04.py, harness/c/c04_rec.c + c04_prod.c) ----
+   The producer executes the hook calls `tc_ops` one after the other; before op i the recorder
+   catches up when `nth i tc_sync`; with `tc_kill = Some e` the last op is cut right after the
+   e-th visible store (SIGKILL), otherwise all ops complete and the process ends (`tc_flush`:
+   through SIGSEGV/SIGABRT, whose handler flushes the open calls first). *)
+Record tcase := {
+  tc_cap : nat; tc_ops : list op; tc_sync : list bool; tc_kill : option nat; tc_flush : bool;
+  (* what the implementation showed *)
+  tc_shl : list nat; tc_wl : list nat; tc_file : list N }.
+
+Definition fuel_for (n : nat) : nat := 12 * n + 12.
+Fixpoint tie_ops (cap : nat) (groups : list (list rec)) (syncs : list bool) (kill : option nat) (s : st) : st :=
+  match groups with
+  | [] => s
+  | g :: rest =>
+      let s1 := if hd false syncs then run cap (catch_up s) s else s in
+      let n := length (done s1) + length g in
+      match rest, kill with
+      | [], Some e => run cap (p_until_events cap (fuel_for (length g)) e n s1) s1
+      | _, _ => tie_ops cap rest (List.tl syncs) kill (run cap (p_until_done cap (fuel_for (length g)) n s1) s1)
+      end
+  end.
+Definition tc_groups (tc : tcase) : list (list rec) :=
+  let '(stk, rss) := ops_run [] (tc_ops tc) in
+  if tc_flush tc then rss ++ [segv_flush stk] else rss.
+Definition tc_state (tc : tcase) : st :=
+  tie_ops (tc_cap tc) (tc_groups tc) (tc_sync tc) (tc_kill tc) (init (concat (tc_groups tc))).
+Definition obs (s : st) : list nat * list nat * list N :=
+  let s1 := drain s in
+  let s2 := flush_shmem_list s1 in
+  (shl s1, map (fun i => b_size (getb i (bufs s2))) (wl s2), file (record_remaining s2)).
+Fixpoint nat_list_eqb (a b : list nat) : bool :=
+  match a, b with
+  | [], [] => true
+  | x :: a', y :: b' => Nat.eqb x y && nat_list_eqb a' b'
+  | _, _ => false
+  end.
+(* model = implementation on this case *)
+Definition agrees (tc : tcase) : bool :=
+  let '(a, b, c) := obs (tc_state tc) in
+  nat_list_eqb a (tc_shl tc) && nat_list_eqb b (tc_wl tc) && list_eqb c (tc_file tc).
+(* the property on the implementation's file: whole records, a prefix of the execution; after a
+   crash handler that ran to completion: the whole eager trace (every open call included) *)
+Definition ok_case (tc : tcase) : bool :=
+  if tc_flush tc then match_recs (eager [] (tc_ops tc)) (tc_file tc)
+  else ok_prefix (eager [] (tc_ops tc)) (tc_file tc).
+(* the header-before-payload window (known defect): whole records followed by one bare header *)
+Definition window_shape (tc : tcase) : bool :=
+  let f := tc_file tc in
+  (16 <=? length f) && ok_prefix (eager [] (tc_ops tc)) (firstn (length f - 16) f).
+Definition tc_in_window (tc : tcase) : bool := in_window (tc_state tc).
